@@ -10,6 +10,7 @@ import Exetera.Props.C10.Concat
 import Exetera.Props.C10.Journal
 import Exetera.Props.C10.Transforms
 import Exetera.Props.C10.Csv
+import Exetera.Props.C10.JoinFlat
 /-!
 # C10 — compiled kernels never touch memory outside their arrays (join kernels part)
 
